@@ -1859,7 +1859,11 @@ func inheritAllRule(R string) RuleFunc {
 			return
 		}
 		found := false
-		for _, lp := range collLoops(d.Pkg, d.Decl.Body) {
+		var loops []collLoop
+		for _, hd := range helperBodies(c, d, 2) {
+			loops = append(loops, collLoops(hd.Pkg, hd.Decl.Body)...)
+		}
+		for _, lp := range loops {
 			if !strings.HasSuffix(lp.coll, ".Children()") {
 				continue
 			}
